@@ -1166,10 +1166,14 @@ class IndexHierarchy(IndexBase):
         if isinstance(other, (Series, Frame)):
             raise ValueError('cannot use labelled container as an operand.')
 
-        if operator.__name__ == 'matmul':
-            return matmul(self._blocks.values, other)
-        elif operator.__name__ == 'rmatmul':
-            return matmul(other, self._blocks.values)
+        if operator.__name__ == 'matmul' or operator.__name__ == 'rmatmul':
+            if operator.__name__ == 'matmul':
+                post = matmul(self._blocks.values, other)
+            else:
+                post = matmul(other, self._blocks.values)
+            if post.__class__ is np.ndarray:
+                post.flags.writeable = False
+            return post
 
         if isinstance(other, Index):
             other = other.values
@@ -1362,7 +1366,9 @@ class IndexHierarchy(IndexBase):
                 matches.append(as_tuple)
 
         if not matches:
-            return np.full(self.__len__(), False, dtype=bool)
+            post = np.full(self.__len__(), False, dtype=bool)
+            post.flags.writeable = False
+            return post
 
         return isin(self.flat().values, matches)
 
